@@ -1,11 +1,14 @@
 package interpreter
 
 import (
+	"encoding/hex"
 	"os"
 	"strconv"
 	"strings"
 	"sync"
 	"testing"
+
+	"github.com/libsv/go-bt/v2/bscript"
 )
 
 // TestVerifRaceConfirm runs a solver-reported racing pair of validations concurrently on one
@@ -16,6 +19,25 @@ func TestVerifRaceConfirm(t *testing.T) {
 		t.Skip("no VERIF_RACE")
 	}
 	parts := strings.Split(spec, ":")
+	if parts[0] == "Scripts" { // Scripts:<locking hex>:<unlocking hex>:<flag set>: the same validation twice at once
+		lsb, _ := hex.DecodeString(parts[1])
+		usb, _ := hex.DecodeString(parts[2])
+		fi, _ := strconv.Atoi(parts[3])
+		for it := 0; it < 300; it++ {
+			var wg sync.WaitGroup
+			wg.Add(2)
+			for g := 0; g < 2; g++ {
+				go func() {
+					defer wg.Done()
+					defer func() { _ = recover() }()
+					ls, us := bscript.Script(append([]byte{}, lsb...)), bscript.Script(append([]byte{}, usb...))
+					_ = NewEngine().Execute(WithScripts(&ls, &us), WithFlags(vC07FlagSets[fi]))
+				}()
+			}
+			wg.Wait()
+		}
+		return
+	}
 	m1, _ := strconv.Atoi(parts[1])
 	m2, _ := strconv.Atoi(parts[2])
 	for it := 0; it < 300; it++ {
